@@ -210,6 +210,9 @@ def to_whoosh(q):
     if op == "and":
         return wq.And([to_whoosh(s) for s in q["qs"]], boost=b)
     if op == "or":
+        if q.get("scale") is not None:
+            # coordination scaling: matching changes nothing, scores are penalised for clauses that do not match
+            return wq.Or([to_whoosh(s) for s in q["qs"]], boost=b, scale=q["scale"])
         return wq.Or([to_whoosh(s) for s in q["qs"]], boost=b)
     if op == "dismax":
         return wq.DisjunctionMax([to_whoosh(s) for s in q["qs"]], boost=b, tiebreak=q.get("tiebreak", 0.0))
